@@ -184,11 +184,13 @@ def random_full_table(rng, kind, n):
         L = rng.randint(1, 40)
         c = free[pos : pos + L]
         pos += L
+        if not c:  # small tables: the free list is used up
+            break
         for a, b in zip(c, c[1:]):
             words[a] = b
         words[c[-1]] = endw
         chains.append(c)
-    if kind == "akai":
+    if kind == "akai" and pos < len(free):
         s = free[pos]
         for k in range(rng.randint(1, 5)):
             if s + k < n and words[s + k] == 0:
